@@ -12,8 +12,8 @@
    to the value the generated JavaScript expression has in MiniJS, for every
    state / environment pair related by env_rel (each Soy variable is in the
    generated variable the generator's scope maps it to, or in opt_data).
-   The STATEMENT stages (print / if / let / switch, loops, calls, msg) are NOT
-   proved: they are covered by translation validation only
+   Of the STATEMENT stages print / if / let / switch / foreach / for-range / css are proved (below); calls,
+   the template wrapper and msg are NOT: they are covered by translation validation only
    (go/cmd/soyverif/c04.go: every generated program is translated by the real
    soyjs.Write, run by node with soyutils.js and compared with the Go render).
    Stages kept for the record:
@@ -25,8 +25,17 @@
                                   blocks (sequences) of such statements -- proved below as ONE simulation step over three
                                   sides (Interp walker, MiniJS execution, JsGen chunks) that re-establishes its own
                                   hypotheses; gen_correct_partial_if / _let / _let_content / _switch are its instances by name
-     gen_correct_partial_loops  : foreach / for / loop helpers   -- not proved
+     gen_correct_partial_loops  : {foreach $x in e}..{ifempty}..{/foreach} over a list value, with index($x) / isFirst($x) /
+                                  isLast($x) of this and of enclosing loops anywhere in the body -- proved below as the
+                                  same simulation step (the loop's frame on both sides, the generated xList_n / xLimit_n /
+                                  xIndex_n / x_n variables, the freshness invariant through every round);
+     gen_correct_partial_for_range : {for $x in range(n)} / range(a, n) / range(a, n, s) with a positive step and n - a within
+                                  2^53, same loop functions -- proved below (xInit_n / xStep_n / xLimit_n =
+                                  Math.max(0, Math.ceil((n - xInit_n) / xStep_n)), x_n = xInit_n + xIndex_n * xStep_n)
+     gen_correct_partial_css    : {css sfx} / {css e, sfx} with a scalar e -- proved below (same step)
      gen_correct_partial_calls  : call / param / data=           -- not proved
+     gen_correct_partial_template : the template wrapper (function header, opt_data defaulting, var output, return) and
+                                  with it a whole-template theorem -- not proved
      gen_correct_partial_msg    : msg / plural with a bundle     -- not proved
    MiniJS idealises JavaScript: numbers are integers (a result beyond 2^53 is
    OutOfModel), objects have no prototype chain, the operators are defined on
@@ -35,7 +44,7 @@
 From Soy Require Import Proofs.SourceTieJs Proofs.SourceTieJsScope Proofs.SourceTieJsText.
 From Soy Require Import Model.Bytes Model.Num Model.Values Model.Outcome Model.Ast Model.JsGen Model.MiniJS
   Model.Escape Model.Directives Model.Print Generated.Tables Model.Interp
-  Proofs.MiniJSProofs Proofs.MiniJSPrint Proofs.MiniJSStmt Proofs.MiniJSCtl.
+  Proofs.MiniJSProofs Proofs.MiniJSPrint Proofs.MiniJSStmt Proofs.MiniJSCtl Proofs.MiniJSGo Proofs.MiniJSGen Proofs.MiniJSSim.
 Open Scope N_scope.
 
 (* the Soy meaning restricted to the subset IS the walker of Interp.v, and the
@@ -66,7 +75,9 @@ Print Assumptions C04_cgen_correct.
 (* the MiniJS expression IS what the generator writes: walking the node of a
    subset expression in Model/JsGen.v appends exactly the printer's chunks
    (whose rendering is tied byte for byte to soyjs.Write by C14's correspondence) *)
-Theorem C04_cgen_print : forall o e fuel st, (cdepth e < fuel)%nat ->
+(* [cwf lv e]: every loop function of e talks about a variable of lv; [lvok lv sc]: each of these has a loop frame in the
+   generator's scope (otherwise soyjs reports an error instead of writing code) *)
+Theorem C04_cgen_print : forall o e lv fuel st, (cdepth e < fuel)%nat -> cwf lv e = true -> lvok lv (j_scope st) ->
   jwalk o fuel (cnode e) st = Ok (tt, st_after st (jprint (cgen (j_scope st) e))).
 Proof. exact cgen_print. Qed.
 Print Assumptions C04_cgen_print.
@@ -89,7 +100,7 @@ Theorem C04_gen_correct_partial_print : forall cf sc je st e fuel v buf old,
 Proof. exact gen_correct_partial_print. Qed.
 Print Assumptions C04_gen_correct_partial_print.
 
-Theorem C04_cgen_print_stmt : forall o e fuel st, j_auto st = 2 -> (S (cdepth e) < fuel)%nat ->
+Theorem C04_cgen_print_stmt : forall o e lv fuel st, j_auto st = 2 -> (S (cdepth e) < fuel)%nat -> cwf lv e = true -> lvok lv (j_scope st) ->
   jwalk o fuel (NPrint 0 (cnode e) []) st
   = Ok (tt, st_after st ([CText (indent_text (j_indent st)); CName (j_buf st); CText t_pluseq]
                          ++ jprint (cgen (j_scope st) e) ++ [CText t_semi_nl])).
@@ -117,7 +128,7 @@ Proof. exact gen_correct_partial_print_esc. Qed.
 Print Assumptions C04_gen_correct_partial_print_esc.
 
 (* ... and that statement is what JsGen writes (every formatter, every state) *)
-Theorem C04_cgen_print_dirs : forall o e ds fuel st, (S (cdepth e) < fuel)%nat ->
+Theorem C04_cgen_print_dirs : forall o e ds lv fuel st, (S (cdepth e) < fuel)%nat -> cwf lv e = true -> lvok lv (j_scope st) ->
   exists stf, jwalk o fuel (NPrint 0 (cnode e) (map pdir_node ds)) st = Ok (tt, stf)
     /\ j_out stf = rev ([CText (indent_text (j_indent st)); CName (j_buf st); CText t_pluseq]
                         ++ jprint (cgen_print_expr (j_auto st) ds (cgen (j_scope st) e)) ++ [CText t_semi_nl]) ++ j_out st
@@ -137,14 +148,17 @@ Proof. exact print_text_agree. Qed.
    the buffer variable have counters up to the generator's counter, and the buffer variable is none of them and not
    opt_ijData (ginv); the buffer variable holds old; the generator's autoescape mode is the renderer's.
    [sout] is the subset semantics: the bytes written and the environment afterwards (None = error or outside the subset).
+   [swf lv s] is the static condition under which the generator does not report an error: binders are identifiers, every
+   loop function names the variable of an enclosing loop (those of the context are lv, each with a loop frame: lvok).
    CONCLUSION, whenever sout gives (text, env'):
    (Go)  the Interp walker writes exactly text, keeps mode, keeps the frames below the innermost one, and a lookup
          afterwards gives env';
    (JS)  executing the MiniJS statement (sgen ..) succeeds;
    (Gen) walking the same node in JsGen emits exactly the chunks of that MiniJS statement at the current indentation;
    and the three resulting states satisfy the hypotheses again, with old ++ text in the buffer variable. *)
-Theorem C04_gen_correct_partial_stmt : forall cf o st je jst s fuel text env' old,
+Theorem C04_gen_correct_partial_stmt : forall cf o lv st je jst s fuel text env' old,
   c_oblig cf = [] -> (sdepth s < fuel)%nat ->
+  swf lv s = true -> lvok lv (j_scope jst) ->
   bufs st = [] -> calls_left st = None -> bytes_left st = None -> ctx st <> [] ->
   env_rel (j_scope jst) (c_ij cf) (sc_lookup (ctx st)) je ->
   ginv (j_scope jst) (j_n jst) (j_buf jst) ->
@@ -162,39 +176,79 @@ Theorem C04_gen_correct_partial_stmt : forall cf o st je jst s fuel text env' ol
     /\ env_rel (j_scope jst') (c_ij cf) (sc_lookup (ctx st')) je'
     /\ ginv (j_scope jst') (j_n jst') (j_buf jst')
     /\ assoc_s (j_buf jst') (je_vars je') = Some (JStr (old ++ text))
-    /\ j_auto jst' = mode st'.
+    /\ j_auto jst' = mode st' /\ lvok lv (j_scope jst').
 Proof. exact gen_correct_partial_stmt_unfolded. Qed.
 Print Assumptions C04_gen_correct_partial_stmt.
 
 (* its instances by stage name ([sim] is the conjunction of the hypotheses above, [sim_step] the conclusion above, both
    for any writer that does not fail: the output without a budget, or a capture buffer of renderBlock -- [wrote st st' ws]
    says the writes ws went to the innermost capture buffer if there is one, to the output otherwise) *)
-Theorem C04_gen_correct_partial_if : forall cf o st je jst c th rest fuel text env' old,
+Theorem C04_gen_correct_partial_if : forall cf o lv st je jst c th rest fuel text env' old,
   c_oblig cf = [] -> (sdepth (SIf c th rest) < fuel)%nat -> sim cf st je jst old ->
+  swf lv (SIf c th rest) = true -> lvok lv (j_scope jst) ->
   sout (c_ij cf) (mode st) go_print_text (sc_lookup (ctx st)) (SIf c th rest) = Some (text, env') ->
-  sim_step cf o st je jst (SIf c th rest) fuel text env' old.
+  sim_step cf o lv st je jst (SIf c th rest) fuel text env' old.
 Proof. exact gen_correct_partial_if. Qed.
 Print Assumptions C04_gen_correct_partial_if.
-Theorem C04_gen_correct_partial_let : forall cf o st je jst name e fuel text env' old,
+Theorem C04_gen_correct_partial_let : forall cf o lv st je jst name e fuel text env' old,
   c_oblig cf = [] -> (sdepth (SLet name e) < fuel)%nat -> sim cf st je jst old ->
+  swf lv (SLet name e) = true -> lvok lv (j_scope jst) ->
   sout (c_ij cf) (mode st) go_print_text (sc_lookup (ctx st)) (SLet name e) = Some (text, env') ->
-  sim_step cf o st je jst (SLet name e) fuel text env' old.
+  sim_step cf o lv st je jst (SLet name e) fuel text env' old.
 Proof. exact gen_correct_partial_let. Qed.
 Print Assumptions C04_gen_correct_partial_let.
 (* {let $x}..{/let}: the Go renderer captures the block in a buffer of its own (renderBlock) and binds the string; the
    JavaScript declares  var x_n = '';  lets the block append to it, and binds the name afterwards *)
-Theorem C04_gen_correct_partial_let_content : forall cf o st je jst name body fuel text env' old,
+Theorem C04_gen_correct_partial_let_content : forall cf o lv st je jst name body fuel text env' old,
   c_oblig cf = [] -> (sdepth (SLetC name body) < fuel)%nat -> sim cf st je jst old ->
+  swf lv (SLetC name body) = true -> lvok lv (j_scope jst) ->
   sout (c_ij cf) (mode st) go_print_text (sc_lookup (ctx st)) (SLetC name body) = Some (text, env') ->
-  sim_step cf o st je jst (SLetC name body) fuel text env' old.
+  sim_step cf o lv st je jst (SLetC name body) fuel text env' old.
 Proof. exact gen_correct_partial_let_content. Qed.
 Print Assumptions C04_gen_correct_partial_let_content.
-Theorem C04_gen_correct_partial_switch : forall cf o st je jst v cs fuel text env' old,
+Theorem C04_gen_correct_partial_switch : forall cf o lv st je jst v cs fuel text env' old,
   c_oblig cf = [] -> (sdepth (SSwitch v cs) < fuel)%nat -> sim cf st je jst old ->
+  swf lv (SSwitch v cs) = true -> lvok lv (j_scope jst) ->
   sout (c_ij cf) (mode st) go_print_text (sc_lookup (ctx st)) (SSwitch v cs) = Some (text, env') ->
-  sim_step cf o st je jst (SSwitch v cs) fuel text env' old.
+  sim_step cf o lv st je jst (SSwitch v cs) fuel text env' old.
 Proof. exact gen_correct_partial_switch. Qed.
 Print Assumptions C04_gen_correct_partial_switch.
+
+(* the loop stage: {foreach $x in e}body{ifempty}ie{/foreach}, e a list value shorter than 2^53, with the loop functions
+   index($y) / isFirst($y) / isLast($y) (expressions CLoop) of this loop and of the enclosing ones anywhere inside.
+   Go: a frame with $x, $x.index, $x.lastIndex, the body a block per round; JavaScript:
+     var xList_n = e; var xLimit_n = xList_n.length; [if (xLimit_n > 0) {] for (var xIndex_n = 0; xIndex_n < xLimit_n; xIndex_n++) {
+     var x_n = xList_n[xIndex_n]; body } [} else { ie }]
+   whose MiniJS meaning re-reads the index and the limit each time round (js_for); the generated names of every round's
+   body are fresh with respect to the four loop variables (the frame property of C04_js_exec_correct) *)
+Theorem C04_gen_correct_partial_loops : forall cf o lv st je jst x e body hasie ie fuel text env' old,
+  c_oblig cf = [] -> (sdepth (SFor x e body hasie ie) < fuel)%nat -> sim cf st je jst old ->
+  swf lv (SFor x e body hasie ie) = true -> lvok lv (j_scope jst) ->
+  sout (c_ij cf) (mode st) go_print_text (sc_lookup (ctx st)) (SFor x e body hasie ie) = Some (text, env') ->
+  sim_step cf o lv st je jst (SFor x e body hasie ie) fuel text env' old.
+Proof. exact gen_correct_partial_loops. Qed.
+Print Assumptions C04_gen_correct_partial_loops.
+
+(* {for $x in range(..)} with one to three arguments of the expression subset (integers), a positive step, limit - init
+   within 2^53: the list the renderer builds (range_list, any sufficient fuel) has Math.max(0, Math.ceil((limit - init) / step))
+   elements init + k * step, which is what the generated counting loop binds x_n to *)
+Theorem C04_gen_correct_partial_for_range : forall cf o lv st je jst x a1 rest body hasie ie fuel text env' old,
+  c_oblig cf = [] -> (sdepth (SForRange x a1 rest body hasie ie) < fuel)%nat -> sim cf st je jst old ->
+  swf lv (SForRange x a1 rest body hasie ie) = true -> lvok lv (j_scope jst) ->
+  sout (c_ij cf) (mode st) go_print_text (sc_lookup (ctx st)) (SForRange x a1 rest body hasie ie) = Some (text, env') ->
+  sim_step cf o lv st je jst (SForRange x a1 rest body hasie ie) fuel text env' old.
+Proof. exact gen_correct_partial_for_range. Qed.
+Print Assumptions C04_gen_correct_partial_for_range.
+
+(* {css sfx} / {css e, sfx} (e of the expression subset with a scalar value): one Write of String(e) + "-" + sfx on the Go
+   side, the two statements  buf += e + '-';  buf += 'sfx';  on the JavaScript side *)
+Theorem C04_gen_correct_partial_css : forall cf o lv st je jst e sfx fuel text env' old,
+  c_oblig cf = [] -> (sdepth (SCss e sfx) < fuel)%nat -> sim cf st je jst old ->
+  swf lv (SCss e sfx) = true -> lvok lv (j_scope jst) ->
+  sout (c_ij cf) (mode st) go_print_text (sc_lookup (ctx st)) (SCss e sfx) = Some (text, env') ->
+  sim_step cf o lv st je jst (SCss e sfx) fuel text env' old.
+Proof. exact gen_correct_partial_css. Qed.
+Print Assumptions C04_gen_correct_partial_css.
 
 (* the JavaScript side alone says more: every variable other than the buffer whose name, read as a generated name,
    has a counter up to the generator's is left alone (so nothing an enclosing block relies on is overwritten) *)
@@ -307,17 +361,20 @@ Proof.
   { intro key. unfold ex_sc2. cbn [jsc_lookup]. unfold assoc_s. destruct (bstr_eqb key (b "x")); reflexivity. }
   constructor.
   - discriminate.
-  - intro key. rewrite Hl. destruct (bstr_eqb key (b "x")); [|apply bounded_nil]. exact (bounded_name 3 (b "x") 3 ltac:(reflexivity)).
+  - intros key _. rewrite Hl. destruct (bstr_eqb key (b "x")); [|apply bounded_nil]. exact (bounded_name 3 (b "x") 3 ltac:(reflexivity)).
   - apply bounded_no_us. vm_compute. intuition discriminate.
-  - intro key. rewrite Hl. destruct (bstr_eqb key (b "x")); reflexivity.
+  - intros key _. rewrite Hl. destruct (bstr_eqb key (b "x")); reflexivity.
   - reflexivity.
+  - intro x. replace (jsc_loop ex_sc2 x) with (@nil N, @nil N).
+    + repeat split; try apply bounded_nil; reflexivity.
+    + unfold ex_sc2. cbn [jsc_loop]. unfold assoc_s. cbn. rewrite andb_false_r. reflexivity.
 Qed.
 
 (* env_rel is satisfiable for that environment: x is in the generated variable, a in opt_data *)
 Example C04_env_rel_nonvacuous : env_rel ex_sc None ex_env ex_je.
 Proof.
   constructor.
-  - intros key Hk. unfold ex_sc, ex_je, env_val, ex_env. cbn [jsc_lookup je_vars je_data].
+  - intros key _ Hk. unfold ex_sc, ex_je, env_val, ex_env. cbn [jsc_lookup je_vars je_data].
     destruct (bstr_eqb key (b "x")) eqn:Ex.
     + apply bstr_eqb_true in Ex. subst. reflexivity.
     + replace (assoc_s key [(b "x", b "x3")]) with (@None bstr) by (cbn [assoc_s]; rewrite Ex; reflexivity).
@@ -325,4 +382,87 @@ Proof.
   - discriminate.
   - intro key. unfold env_val, ex_env. destruct (bstr_eqb key (b "a")); [reflexivity|]. destruct (bstr_eqb key (b "x")); reflexivity.
   - discriminate.
+  - intros x i H. unfold ex_env in H. rewrite !(bstr_eqb_sym (x ++ jk_index)) in H. rewrite !ident_neq_index in H by reflexivity. discriminate.
 Qed.
+
+(* {foreach $v in $a.l}{if not isFirst($v)},{/if}{index($v)}:{$v}{if isLast($v)}.{/if}{ifempty}none{/foreach}
+   with a.l = [10, 20] in opt_data, and with an empty list *)
+Definition ex_for : cstmt :=
+  SFor (b "v") (CVar (b "a") [CAKey false (b "l")])
+       (BCons (SIf (CNot (CLoop LIsFirst (b "v"))) (BCons (SRaw (b ",")) BNil) ENone)
+       (BCons (SPrint (CLoop LIndex (b "v")) []) (BCons (SRaw (b ":")) (BCons (SPrint (CVar (b "v") []) [])
+       (BCons (SIf (CLoop LIsLast (b "v")) (BCons (SRaw (b ".")) BNil) ENone) BNil)))))
+       true (BCons (SRaw (b "none")) BNil).
+Definition ex_env_l (l : list value) (k : bstr) : option value := if bstr_eqb k (b "a") then Some (VMap 7 [(b "l", VList 8 l)]) else None.
+Example C04_loops_nonvacuous :
+  swf [] ex_for = true
+  /\ (match sout None 1 go_print_text (ex_env_l [VInt 10; VInt 20]) ex_for with Some (t, _) => Some t | None => None end) = Some (b "0:10,1:20.")
+  /\ (match sout None 1 go_print_text (ex_env_l []) ex_for with Some (t, _) => Some t | None => None end) = Some (b "none")
+  /\ (match js_exec {| je_vars := [(b "output", JStr [])]; je_data := JObj [(b "a", JObj [(b "l", JArr [JNum 10; JNum 20])])] |}
+                     (fst (sgen 1 (b "output") [[]] 3 ex_for)) with
+      | Ok je' => Some (je_vars je') | _ => None end)
+     = Some [(b "output", JStr (b "0:10,1:20.")); (b "vList_4", JArr [JNum 10; JNum 20]); (b "vLimit_4", JNum 2); (b "vIndex_4", JNum 2); (b "v_4", JNum 20)]
+  /\ (match js_exec {| je_vars := [(b "output", JStr [])]; je_data := JObj [(b "a", JObj [(b "l", JArr [])])] |}
+                     (fst (sgen 1 (b "output") [[]] 3 ex_for)) with
+      | Ok je' => assoc_s (b "output") (je_vars je') | _ => None end) = Some (JStr (b "none"))
+  /\ render_chunks is_print_tbl (sprint 1 (fst (sgen 1 (b "output") [[]] 3 ex_for))) = b
+"  var vList_4 = opt_data.a.l;
+  var vLimit_4 = vList_4.length;
+  if (vLimit_4 > 0) {
+    for (var vIndex_4 = 0; vIndex_4 < vLimit_4; vIndex_4++) {
+      var v_4 = vList_4[vIndex_4];
+      if (!((vIndex_4 == 0))) {
+        output += ',';
+      }
+      output += soy.$$escapeHtml(vIndex_4);
+      output += ':';
+      output += soy.$$escapeHtml(v_4);
+      if ((vIndex_4 == vLimit_4 - 1)) {
+        output += '.';
+      }
+    }
+  } else {
+    output += 'none';
+  }
+".
+Proof. vm_compute. repeat split; reflexivity. Qed.
+
+(* {for $r in range(1, 8, 3)}{index($r)}={$r}{if not isLast($r)};{/if}{/for} *)
+Definition ex_range : cstmt :=
+  SForRange (b "r") (CInt 1) [CInt 8; CInt 3]
+    (BCons (SPrint (CLoop LIndex (b "r")) []) (BCons (SRaw (b "=")) (BCons (SPrint (CVar (b "r") []) [])
+    (BCons (SIf (CNot (CLoop LIsLast (b "r"))) (BCons (SRaw (b ";")) BNil) ENone) BNil)))) false BNil.
+Example C04_for_range_nonvacuous :
+  swf [] ex_range = true
+  /\ (match sout None 2 go_print_text (fun _ => None) ex_range with Some (t, _) => Some t | None => None end) = Some (b "0=1;1=4;2=7")
+  /\ (match js_exec {| je_vars := [(b "output", JStr [])]; je_data := JObj [] |} (fst (sgen 2 (b "output") [[]] 3 ex_range)) with
+      | Ok je' => assoc_s (b "output") (je_vars je') | _ => None end) = Some (JStr (b "0=1;1=4;2=7"))
+  /\ render_chunks is_print_tbl (sprint 1 (fst (sgen 2 (b "output") [[]] 3 ex_range))) = b
+"  var rInit_4 = 1;
+  var rStep_4 = 3;
+  var rLimit_4 = Math.max(0, Math.ceil((8 - rInit_4) / rStep_4));
+  for (var rIndex_4 = 0; rIndex_4 < rLimit_4; rIndex_4++) {
+    var r_4 = rInit_4 + rIndex_4 * rStep_4;
+    output += rIndex_4;
+    output += '\u003D';
+    output += r_4;
+    if (!((rIndex_4 == rLimit_4 - 1))) {
+      output += ';';
+    }
+  }
+".
+Proof. vm_compute. repeat split; reflexivity. Qed.
+
+(* {css $x, bar}{css foo} with x = 4 in the generated variable x_3 *)
+Example C04_css_nonvacuous :
+  (match bout None 1 go_print_text ex_env (BCons (SCss (Some (CVar (b "x") [])) (b "bar")) (BCons (SCss None (b "foo")) BNil)) with Some t => Some t | None => None end)
+    = Some (b "4-barfoo")
+  /\ (match jb_exec {| je_vars := [(b "output", JStr []); (b "x_3", JNum 4)]; je_data := JObj [] |}
+                      (fst (bgen 1 (b "output") ex_sc2 3 (BCons (SCss (Some (CVar (b "x") [])) (b "bar")) (BCons (SCss None (b "foo")) BNil)))) with
+      | Ok je' => assoc_s (b "output") (je_vars je') | _ => None end) = Some (JStr (b "4-barfoo"))
+  /\ render_chunks is_print_tbl (bprint 1 (fst (bgen 1 (b "output") ex_sc2 3 (BCons (SCss (Some (CVar (b "x") [])) (b "bar")) (BCons (SCss None (b "foo")) BNil))))) = b
+"  output += x_3 + '-';
+  output += 'bar';
+  output += 'foo';
+".
+Proof. vm_compute. repeat split; reflexivity. Qed.
